@@ -1,7 +1,7 @@
 (* Props/C15.v — property C15: leakage models and discriminants compute their definitions on every value.
    Only statements closed by [exact]; Print Assumptions beneath each.  Proofs are in Proofs/Models.v. *)
 From Coq Require Import NArith ZArith QArith List Bool.
-From ScaredV Require Import Generated.HwLut Run.Compare Model.Models Proofs.Models.
+From ScaredV Require Import Generated.HwLut Run.Compare Model.Models Model.ModelsSeq Proofs.Models.
 Import ListNotations.
 Open Scope N_scope.
 
@@ -87,4 +87,32 @@ Print Assumptions reduces_requested_axis.
 Example hw_example :
   hw_array popcount 2 [2; 3; 2]%nat 1 [1; 3; 7; 15; 31; 63; 255; 511; 1023; 2047; 4095; 65535] = [4; 6; 18; 20]
   /\ disc_lane DNanmax [Some (1#2)%Q; None; Some (3#4)%Q] = Some (3#4)%Q.
+Proof. vm_compute. split; reflexivity. Qed.
+
+(* Memory layout.  The models above are functions of the LOGICAL array (shape + entries enumerated by multi-index in
+   row-major order, i.e. nested tolist()); strides / memory order / byte order of the ndarray are not inputs of the
+   specification, so [hw_groups] and [reduces_requested_axis] already speak about every layout.  What has to be shown is
+   that the correspondence check separates a result whose remaining axes are permuted from the right one even when all
+   dimensions are equal (same shape, same multiset of values): a[i][j][k] = 4i+2j+k on 2x2x2, nansum over axis 0 is
+   r[j][k] = 4+4j+2k; the transposed r[k][j] is rejected. *)
+Example layout_permuted_result_is_rejected :
+  let a := [Fin 0 0; Fin 1 0; Fin 1 1; Fin 3 0; Fin 1 2; Fin 5 0; Fin 3 1; Fin 7 0] in
+  let c obs := CDisc {| dc_op := DNansum; dc_shape := [2; 2; 2]%nat; dc_axis := 0%nat; dc_in := a;
+                        dc_obs_shape := [2; 2]%nat; dc_obs := obs |} in
+  call_check (c [Fin 1 2; Fin 3 1; Fin 1 3; Fin 5 1]) = true /\
+  call_check (c [Fin 1 2; Fin 1 3; Fin 3 1; Fin 5 1]) = false.
+Proof. vm_compute. split; reflexivity. Qed.
+
+(* Call histories.  Every specification above is a pure function of (parameters, logical input): the expected value of
+   a call does not mention earlier or later calls, so no theorem about histories is needed on the model side.  That the
+   CODE has no hidden state is held by the call_sequence correspondence: [seq_check] compares every result, read right
+   after its call and read again after all later calls, with the specification of its own call.  Two calls of one
+   HammingWeight(nb_words = 2) instance on 2x4 uint8 data: a first result that has become the second one is rejected. *)
+Example sequence_overwritten_result_is_rejected :
+  let call1 obs := CHw {| hw_itemsize := 1; hw_k := 2; hw_shape := [2; 4]%nat; hw_axis := 1%nat;
+                          hw_in := [1; 3; 7; 15; 0; 255; 1; 1]; hw_obs_shape := [2; 2]%nat; hw_obs := obs |} in
+  let call2 obs := CHw {| hw_itemsize := 1; hw_k := 2; hw_shape := [2; 4]%nat; hw_axis := 1%nat;
+                          hw_in := [255; 255; 0; 0; 1; 2; 4; 24]; hw_obs_shape := [2; 2]%nat; hw_obs := obs |} in
+  seq_check {| sq_now := [call1 [3; 7; 8; 2]; call2 [16; 0; 2; 3]]; sq_after := [call1 [3; 7; 8; 2]; call2 [16; 0; 2; 3]] |} = true /\
+  seq_check {| sq_now := [call1 [3; 7; 8; 2]; call2 [16; 0; 2; 3]]; sq_after := [call1 [16; 0; 2; 3]; call2 [16; 0; 2; 3]] |} = false.
 Proof. vm_compute. split; reflexivity. Qed.
